@@ -120,7 +120,9 @@ func MakeCORSMiddlewareWithResolver(resolveRules CORSRulesResolver, next http.Ha
 			requestedMethod = strings.TrimSpace(strings.ToUpper(r.Header.Get(accessControlRequestMethodHeader)))
 		}
 
-		requestedHeaders := parseHeaderList(r.Header.Get(accessControlRequestHeadersHeader))
+		// A list-valued header may arrive as several field lines; they are equivalent
+		// to one comma-joined list (RFC 9110 5.3), so every line must be checked.
+		requestedHeaders := parseHeaderList(strings.Join(r.Header.Values(accessControlRequestHeadersHeader), ","))
 
 		matchedRule, matchedOriginPattern, ok := findMatchingRule(rules, origin, requestedMethod, requestedHeaders, isPreflightRequest(r))
 		if !ok {
